@@ -69,6 +69,9 @@ func Walk(v reflect.Value, path string, out *[]Piece) {
 		if v.IsNil() {
 			return
 		}
+		// the map object itself (first word of its header: the entry count): two decoded maps
+		// must never be one map, empty or not
+		*out = append(*out, Piece{Ptr: v.UnsafePointer(), Addr: v.Pointer(), Size: 8, Align: 8, Kind: "map", Path: path})
 		it := v.MapRange()
 		i := 0
 		for it.Next() {
